@@ -19,6 +19,7 @@ PROFILE = {
     "overshoot": 0.6,
     "p_retryable": 0.9,
     "max_dur": 64,
+    "multi_call": (1, 2),
 }
 
 
@@ -81,7 +82,7 @@ PROP = Property(
         "off-grid stream: 2 microsecond tolerance because the library compares timedeltas rounded to 1 us",
     ],
     streams=[
-        Stream("grid", check, strategy=C.with_entry(gen.retry_case(PROFILE), C.RETRY_ENTRIES), quick=12000, thorough=300000),
+        Stream("grid", check, strategy=C.with_entry(gen.retry_case(PROFILE), C.WIDE_ENTRIES), quick=12000, thorough=300000),
         Stream("offgrid", check, strategy=C.with_entry(offgrid_case(), C.RETRY_ENTRIES), quick=4000, thorough=100000),
     ],
 )
